@@ -455,6 +455,17 @@ def correspondence(rng, tier):
         add('OFromIntv %s %s %s %s' % (C.qs(lo), C.qs(hi), zs(shape), flags_lit(fl)), out,
             {'op': 'fromintv', 'lo': lo, 'hi': hi, 'shape': shape, 'nodes_on_bdry': repr(pf)})
 
+    # fixed corner cases of the input validation
+    for lo, hi, shape, fl in [([0.0, 0.0], [1.0, 1.0], [2, 2], [(True, False), (False, False), (True, True)]),
+                              ([0.0, 0.0], [1.0, 1.0], [2, 2], [(True, False)]),
+                              ([0.0], [1.0], [2], [(True, False), (False, False), (True, True)])]:
+        out = impl(lambda: uniform_partition_fromintv(odl.IntervalProd(lo, hi), shape, nodes_on_bdry=fl))
+        add('OFromIntv %s %s %s %s' % (C.qs(lo), C.qs(hi), zs(shape), flags_lit(fl)), out,
+            {'op': 'fromintv', 'lo': lo, 'hi': hi, 'shape': shape, 'nodes_on_bdry': repr(fl)})
+    for lo, hi, css in [([0.0, 0.0], [1.0], [[0.5], [0.5]]), ([0.0], [1.0, 2.0], [[0.5]]), ([0.0], [1.0], [[0.5], [0.5]])]:
+        out = impl(lambda: odl.RectPartition(odl.IntervalProd(lo, hi), odl.RectGrid(*css)))
+        add('OInit %s %s %s' % (C.qs(lo), C.qs(hi), C.qss(css)), out, {'op': 'init', 'lo': lo, 'hi': hi, 'cs': css})
+
     # ---- OUniform: every subset of (min_pt, max_pt, shape, cell_sides), per axis
     for _ in range(200 * N):
         nd = rng.choice([1, 1, 2, 3])
@@ -870,6 +881,15 @@ def probes(rng, tier):
                    "    try:\n        arr[...] = 123.0\n    except ValueError:\n        pass          # read-only arrays are fine\n"
                    "observed = (snap(p), snap(q)); ok = observed == expected\n" % expr)
             probe('derived-array-is-fresh-' + name, 'overwriting the array returned by %s changes no observable of any partition on that grid' % expr, src)
+
+    # -- P11 invalid nodes_on_bdry (wrong number of axes) is a ValueError in every factory
+    for ctor in ("odl.uniform_partition([0, 0], [1, 1], (2, 2), nodes_on_bdry=fl)",
+                 "odl.uniform_partition_fromintv(odl.IntervalProd([0, 0], [1, 1]), (2, 2), nodes_on_bdry=fl)",
+                 "odl.nonuniform_partition([0, 1], [0, 1], nodes_on_bdry=fl)"):
+        src = (_PRE + "fl = [True, False, True]\ntry:\n    %s\n    observed = 'accepted'\nexcept Exception as e:\n"
+               "    observed = type(e).__name__\nexpected = 'ValueError'; ok = observed == expected\n" % ctor)
+        key = 'nodes_on_bdry-wrong-length-error-class' if 'fromintv' not in ctor else 'nodes_on_bdry-wrong-length-fromintv'
+        probe(key, 'nodes_on_bdry with the wrong number of axes raises ValueError', src)
 
     # -- P6 every consistent subset of (min_pt, max_pt, shape, cell_sides) gives the same partition
     for _ in range(40 * N):
